@@ -3,7 +3,7 @@ import re
 from paths import explore
 from sym import fmt, walk
 from callgraph import CallGraph
-from rules.common import Anchors, path_calls, ret_kind, root_param, arg_locs
+from rules.common import adt_base, Anchors, path_calls, ret_kind, root_param, arg_locs
 import stdmodel as SM
 
 LEVEL = 'proof'
@@ -185,7 +185,7 @@ def r11_3(ctx, A):
     cg = CallGraph(lib)
     getter = None
     for f in lib.fn_list:
-        if f.impl and f.impl['self_ty'].startswith(A.cw) and not f.impl.get('trait_path'):
+        if f.impl and adt_base(f.impl['self_ty']) == A.cw and not f.impl.get('trait_path'):
             accs = list(f.field_accesses(A.cw, A.cw_inner))
             if accs and f.local_ty(0) != "()" and not f.local_ty(0).startswith('&') and f.arg_count == 1 and not f.local_ty(1).startswith('&'):
                 getter = f
